@@ -65,38 +65,37 @@ class Mod:
             if vc is None:
                 return [(OK, none(), st)]
             return [(OK, some(("tuple", (("enum", VC + vc, ()), ("abs", "ver", ("required", i))))), st)]
-        if callee in ("debian_control::lossless::relations::Entry::relations",):
+        if callee in ("debian_control::lossless::relations::Entry::relations", "debian_control::lossless::relations::Relations::entries"):
             v = I.deref_val(st, args[0])
-            return [(OK, ("abs", "iter", v[2]), st)]
-        if callee in ("debian_control::lossless::relations::Relations::entries",):
-            v = I.deref_val(st, args[0])
-            return [(OK, ("abs", "iter", v[2]), st)]
-        if callee in ("core::slice::<impl [T]>::iter", "alloc::vec::Vec::<T>::iter", "<alloc::vec::Vec<T> as core::ops::deref::Deref>::deref") or callee.endswith("::iter") and "slice" in callee:
-            v = I.deref_val(st, args[0])
-            if v[0] == "abs" and v[1] in ("vec", "iter"):
-                return [(OK, ("abs", "iter", v[2]), st)]
+            if v[0] == "abs" and v[1] in ("entry", "relations"):
+                return [(OK, ("abs", "siter", tuple(v[2]), 0), st)]
+            I.ev("C12/iter-source", "%s applied to an unrecognised value" % callee.rsplit("::", 1)[-1], False, str(v)[:80], n.get("sp", ""))
+            return [(OK, unk("iter-source"), st)]
+        a0 = I.deref_val(st, args[0]) if args else None
+        if a0 is not None and a0[0] == "abs" and a0[1] == "vec":
+            if callee in ("core::slice::<impl [T]>::iter", "alloc::vec::Vec::<T>::iter") or callee.endswith("::iter") and "slice" in callee or callee.endswith("IntoIterator>::into_iter") or callee == "core::iter::traits::collect::IntoIterator::into_iter":
+                return [(OK, ("abs", "siter", tuple(a0[2]), 0), st)]
+            if callee.endswith("Deref>::deref"):
+                return [(OK, a0, st)]
+            if callee.endswith("::is_empty"):
+                return [(OK, ("bool", not a0[2]), st)]
+            if callee.endswith("::len"):
+                return [(OK, hirai.mkint(len(a0[2])), st)]
+        if a0 is not None and a0[0] == "abs" and a0[1] == "siter":
+            if callee.endswith("IntoIterator>::into_iter") or callee == "core::iter::traits::collect::IntoIterator::into_iter":
+                return [(OK, a0, st)]
+            if callee.endswith("Iterator>::next") or callee == "core::iter::traits::iterator::Iterator::next":
+                if a0[3] < len(a0[2]):
+                    s2 = I.write(st, args[0][1], ("abs", "siter", a0[2], a0[3] + 1)) if args[0][0] == "ref" else st
+                    return [(OK, some(a0[2][a0[3]]), s2)]
+                return [(OK, none(), st)]
+            import siterlib
+            r = siterlib.siter_intrinsic(I, callee, args, st, n)
+            if r is not None:
+                return r
         if callee in ("core::iter::traits::iterator::Iterator::any", "core::iter::traits::iterator::Iterator::all") or callee.endswith("Iterator>::any") or callee.endswith("Iterator>::all"):
-            it = I.deref_val(st, args[0])
-            if not (it[0] == "abs" and it[1] == "iter"):
-                I.ev("C12/iter-source", "any/all applied to an unrecognised sequence", False, str(it)[:80], n.get("sp", ""))
-                return [(OK, unk("anyall"), st)]
-            is_any = callee.endswith("any")
-
-            def go(idx, s):
-                if idx == len(it[2]):
-                    return [(OK, ("bool", not is_any), s)]
-                out = []
-                for ctl, r, s2 in I.apply(args[1], [it[2][idx]], s, n):
-                    if ctl != OK:
-                        out.append((ctl, r, s2))
-                    elif r[0] != "bool":
-                        out.append((OK, unk("anyall-elem"), s2))
-                    elif r[1] == is_any:
-                        out.append((OK, ("bool", is_any), s2))
-                    else:
-                        out.extend(go(idx + 1, s2))
-                return out
-            return go(0, st)
+            I.ev("C12/iter-source", "any/all applied to an unrecognised sequence", False, str(a0)[:80], n.get("sp", ""))
+            return [(OK, unk("anyall"), st)]
         if callee.endswith("as core::convert::AsRef<T>>::as_ref") or callee.endswith("Cow<'_, T> as core::ops::deref::Deref>::deref") or callee.endswith("::as_ref"):
             return [(OK, I.deref_val(st, args[0]), st)]
         return None
@@ -195,8 +194,10 @@ def run(tier):
         C.ob("C12/agree", name, vals == vals2, "lossless %s vs lossy %s" % (sorted(map(str, vals)), sorted(map(str, vals2))))
         C.sample({"cell": name, "expected": want, "lossless": sorted(map(str, vals)), "lossy": sorted(map(str, vals2))})
 
-    # D2: and/or composition. representatives: S (satisfied), U (unsatisfied)
-    S, U = ("equal", "Equal"), ("absent", None)
+    # D2: and/or composition. representatives: S (satisfied), U (unsatisfied: package absent), V (unsatisfied although
+    # the package is installed: the version fails the constraint) - an evaluator that stops at the first installed
+    # alternative differs only on V
+    S, U, V = ("equal", "Equal"), ("absent", None), ("lower", "Equal")
     shapes = []
     for ne in range(0, 3):
         for lens in itertools.product(range(0, 3), repeat=ne):
@@ -204,7 +205,7 @@ def run(tier):
     ncomp = 0
     for lens in shapes:
         total = sum(lens)
-        for assign in itertools.product([S, U], repeat=total):
+        for assign in itertools.product([S, U, V], repeat=total):
             # build entries
             idx = 0
             entries_ll, entries_ly, truth = [], [], True
@@ -215,7 +216,7 @@ def run(tier):
                 entries_ll.append(("abs", "entry", rel_ll))
                 entries_ly.append(("abs", "vec", rel_ly))
                 idx += ln
-            name = "entries=%s sat=%s" % (list(lens), ["S" if a == S else "U" for a in assign])
+            name = "entries=%s sat=%s" % (list(lens), ["S" if a == S else ("U" if a == U else "V") for a in assign])
             vals, I, _ = run_fn(F, LL_RELS, ("abs", "relations", tuple(entries_ll)), list(assign))
             report_events(I, "lossless " + name)
             C.ob("C12/compose-lossless", name, vals == {("bool", truth)},
@@ -228,9 +229,9 @@ def run(tier):
             ncomp += 1
     # entry-level "any" for the lossless Entry on 0..2 alternatives
     for ln in range(0, 3):
-        for assign in itertools.product([S, U], repeat=ln):
+        for assign in itertools.product([S, U, V], repeat=ln):
             truth = any(spec(*a) for a in assign)
-            name = "alternatives=%s" % ["S" if a == S else "U" for a in assign]
+            name = "alternatives=%s" % ["S" if a == S else ("U" if a == U else "V") for a in assign]
             vals, I, _ = run_fn(F, LL_ENTRY, ("abs", "entry", tuple(("abs", "rel", j) for j in range(ln))), list(assign))
             C.ob("C12/entry-any", name, vals == {("bool", truth)}, "Entry::satisfied_by yields %s, expected %s" % (sorted(map(str, vals)), truth), F.fn(LL_ENTRY)["sp"])
 
@@ -243,7 +244,7 @@ def run(tier):
     C.assumptions += ["debversion::Version's PartialOrd/PartialEq implement Debian version ordering (trusted dependency)",
                       "the evaluator closure does not depend on the position of the alternative (no captured mutable state; checked: closure captures only the lookup)"]
     return C.finish("Every cell of the satisfaction decision table (4 installed-version outcomes x 6 constraint forms) and every AND/OR "
-                    "composition of up to 2 entries x 2 alternatives is evaluated by abstract interpretation of the HIR of both evaluators; "
+                    "composition of up to 2 entries x 2 alternatives (each alternative satisfied, unsatisfied-absent or unsatisfied-installed) is evaluated by abstract interpretation of the HIR of both evaluators; "
                     "comparison operators are identified by resolved trait method and operand roles (installed vs required).")
 
 
